@@ -198,6 +198,9 @@ func (s *server) onWebSocket(ctx *types.HttpContext, wsc *types.WebSocketConn) {
 	} else if client.Upgraded() {
 		server_log.Debug("transport had already been upgraded")
 		wsc.Close()
+	} else if !s.Upgrades(client.Transport().Name()).Has(transportName) {
+		server_log.Debug("the session's transport does not upgrade to this one")
+		wsc.Close()
 	} else {
 		server_log.Debug("upgrading existing transport")
 
@@ -327,6 +330,9 @@ func (s *server) OnWebTransportSession(ctx *types.HttpContext, wt *webtransport.
 		session.CloseWithError(0, "")
 	} else if client.Upgraded() {
 		server_log.Debug("transport had already been upgraded")
+		session.CloseWithError(0, "")
+	} else if !s.Upgrades(client.Transport().Name()).Has(transports.WEBTRANSPORT) {
+		server_log.Debug("the session's transport does not upgrade to this one")
 		session.CloseWithError(0, "")
 	} else {
 		server_log.Debug("upgrading existing transport")
